@@ -15,7 +15,10 @@ import (
 )
 
 // allocLimit: a decoder fed len bytes has no business allocating more than this (DESIGN §6 C08 item 6).
-func allocLimit(n int) uint64 { return 64<<20 + 16*uint64(n) }
+// (80 rather than 64 MiB: the sizes a corrupted length can ask for are powers of two times an element size, 64 MiB
+// among them; a threshold sitting exactly on such a size would make the verdict depend on a few KiB of
+// measurement noise. The nearest reachable sizes, 64 and 96 MiB, are both 16 MiB away.)
+func allocLimit(n int) uint64 { return 80<<20 + 16*uint64(n) }
 
 // offsets at which a stream of n bytes is cut / a writer fails: all of them for objects up to 4 KiB
 // (thorough: always all), otherwise the first 256, every 64th and the last 8.
@@ -350,20 +353,27 @@ func (x *lc) dangers(d decoder, ref []byte) []danger {
 				}
 				c, seen := groups[grp]
 				if !seen {
-					// smallest power of two whose extrapolated allocation exceeds twice the limit (the slope measured
-					// on the small probe includes fixed overheads)
-					v := uint64(probeLen)
-					for float64(v)*float64(out.Alloc)/float64(probed) <= 2*float64(allocLimit(len(ref))) {
-						v <<= 1
-					}
-					o3 := runJob(hdr, x.corruptJob(d, o, enc(f, v), false))
-					switch {
-					case o3.Fatal != "":
-						c.ok = true
-						c.msg = fmt.Sprintf("confirmed: with the field at offset %d set to 2^%d the process was killed (fatal error: %s)", o, bits.Len64(v)-1, o3.Fatal)
-					case o3.Alloc > allocLimit(len(ref)):
-						c.ok = true
-						c.msg = fmt.Sprintf("confirmed: with the field at offset %d set to 2^%d the decoder allocated %d MiB before returning err=%q", o, bits.Len64(v)-1, o3.Alloc>>20, o3.Err)
+					// Lengths 2^20, 2^21, ... until the decoder allocates more than the limit (or dies), as long as
+					// the allocation keeps growing with the length; a decoder that caps or validates the length
+					// stops growing and is not a finding. (No extrapolation from the small probe: its measurement
+					// includes whatever else the decode allocates.)
+					prev := uint64(0)
+					for v := uint64(1 << 20); v <= 1<<31; v <<= 1 {
+						o3 := runJob(hdr, x.corruptJob(d, o, enc(f, v), false))
+						if o3.Fatal != "" {
+							c.ok = true
+							c.msg = fmt.Sprintf("confirmed: with the field at offset %d set to 2^%d the process was killed (fatal error: %s)", o, bits.Len64(v)-1, o3.Fatal)
+							break
+						}
+						if o3.Alloc > allocLimit(len(ref)) {
+							c.ok = true
+							c.msg = fmt.Sprintf("confirmed: with the field at offset %d set to 2^%d the decoder allocated %d MiB before returning err=%q", o, bits.Len64(v)-1, o3.Alloc>>20, o3.Err)
+							break
+						}
+						if v >= 1<<22 && o3.Alloc < prev+prev/2 {
+							break // not growing with the length any more: bounded
+						}
+						prev = o3.Alloc
 					}
 					groups[grp] = c
 				}
